@@ -129,24 +129,44 @@ def universe(thorough: bool, big: bool = False) -> typing.List[TypeDef]:
         "Ip16": "void16\n@sealed\n",
         "Ip3": "void3\n@sealed\n",
         "Ipd": "void8\n@extent 64\n",
+        # standard-width members on their natural alignment whose C struct has TAIL padding (6 / 9 bytes on the wire, 8 / 16
+        # in memory), and one without; a composite that ENDS with byte-aligned padding of 3 bytes
+        "Izc": "uint32 a\nuint16 b\n@sealed\n",
+        "Izd": "uint64 a\nuint8 b\n@sealed\n",
+        "Ize": "uint16 a\nuint16 b\n@sealed\n",
+        "Ipt": "uint8 k\nvoid24\n@sealed\n",
     }
     inner_deps = {"Ivy": ("Ivx",)}
+    late = ("Izc", "Izd", "Ize", "Ipt")  # added last: every use is part of the quick core, so quick and thorough see the same types
     for n, body in inners.items():
         out.append(TypeDef(n, "L3i", body, True, inner_deps.get(n, ())))
     for n in inners:
         for use, ue in (("f", ""), ("a2", "[2]"), ("v2", "[<=2]")):
             for k in (0, 3):
                 pre = "" if k == 0 else f"truncated uint{k} p\n"
-                out.append(TypeDef(f"L3{n}{use}k{k}", "L3", f"{pre}NS.{n}.1.0{ue} x\nuint8 tail\n@sealed\n", k == 3 or use == "f", (n,)))
+                out.append(TypeDef(f"L3{n}{use}k{k}", "L3", f"{pre}NS.{n}.1.0{ue} x\nuint8 tail\n@sealed\n", k == 3 or use == "f" or n in late, (n,)))
         out.append(TypeDef(f"L3{n}u", "L3", f"@union\nuint8 a\nNS.{n}.1.0 x\nNS.{n}.1.0[<=2] y\n@sealed\n", True, (n,)))
         # an alternative that is a FIXED-length array of composites (its elements own whatever the composite owns)
-        out.append(TypeDef(f"L3{n}ua", "L3", f"@union\nuint8 a\nNS.{n}.1.0[2] z\nNS.{n}.1.0 x\n@sealed\n", n in ("Ivs", "Ivd", "Ius", "Ifd"), (n,)))
+        out.append(TypeDef(f"L3{n}ua", "L3", f"@union\nuint8 a\nNS.{n}.1.0[2] z\nNS.{n}.1.0 x\n@sealed\n", n in ("Ivs", "Ivd", "Ius", "Ifd") or n in late, (n,)))
         # ... and as the FIRST alternative (the one a default-constructed union holds)
-        out.append(TypeDef(f"L3{n}ub", "L3", f"@union\nNS.{n}.1.0[2] z\nuint8 a\n@sealed\n", n in ("Ivs", "Ius"), (n,)))
+        out.append(TypeDef(f"L3{n}ub", "L3", f"@union\nNS.{n}.1.0[2] z\nuint8 a\n@sealed\n", n in ("Ivs", "Ius") or n in late, (n,)))
     # depth 3 nesting, delimited inside delimited inside sealed
     out.append(TypeDef("N2", "L3i", "uint8 h\nNS.Ivd.1.0 m\nNS.Iud.1.0[<=2] us\n@extent 400\n", True, ("Ivd", "Iud")))
     out.append(TypeDef("L3N3", "L3", "truncated uint3 p\nNS.N2.1.0 n\nNS.N2.1.0[<=1] ns\nuint8 tail\n@sealed\n", True, ("N2",)))
     out.append(TypeDef("L3N3d", "L3", "NS.N2.1.0 n\nuint8 tail\n@extent 2000\n", True, ("N2",)))
+    # byte-aligned void fields of 17..56 bits as the LAST item of a representation (directly, and as the tail of the last
+    # nested object): whatever clears them must not touch a byte behind the advertised buffer
+    for w, head in ((17, "uint8"), (24, "uint8"), (40, "uint16"), (48, "uint16"), (56, "uint8")):
+        out.append(TypeDef(f"L5void{w}t", "L5", f"{head} k\nvoid{w}\n@sealed\n", True))
+    out.append(TypeDef("L3Iptlast", "L3", "uint16 h\nvoid16\nNS.Ipt.1.0 t\n@sealed\n", True, ("Ipt",)))
+    out.append(TypeDef("L3Iptlastd", "L3", "uint16 h\nNS.Ipt.1.0[<=2] t\n@extent 160\n", True, ("Ipt",)))
+    # neighbours in one generator run whose field offsets have the SAME minimum and maximum (8 and 24 bits) but are
+    # byte-aligned in one type and not in the next (a, u, a, u: every chunk boundary leaves an (aligned, unaligned) pair
+    # that is rendered in this order)
+    out.append(TypeDef("L5of0a", "L5", "uint8[<=2] a\nfloat32 b\nuint16 c\n@sealed\n", True))
+    out.append(TypeDef("L5of1u", "L5", "truncated uint4[<=4] a\nfloat32 b\nuint16 c\n@sealed\n", True))
+    out.append(TypeDef("L5of2a", "L5", "uint16[<=1] a\nfloat32 b\nuint16 c\n@sealed\n", True))
+    out.append(TypeDef("L5of3u", "L5", "truncated uint2[<=8] a\nfloat32 b\nuint16 c\n@sealed\n", True))
     # structures ALL of whose fields are composites (no primitive of their own): sealed + delimited members, one member only
     out.append(TypeDef("L3allc", "L3", "NS.Ifs.1.0 head\nNS.Ivd.1.0 body\n@sealed\n", True, ("Ifs", "Ivd")))
     out.append(TypeDef("L3allcd", "L3", "NS.Ifd.1.0 head\nNS.Ivd.1.0 body\nNS.Ius.1.0 u\n@extent 1200\n", True, ("Ifd", "Ivd", "Ius")))
@@ -273,7 +293,13 @@ def values_of(t: pydsdl.SerializableType, storage: bool, budget: int = 48) -> ty
             # rotate through the element alphabet so every element value appears at several positions
             for r in range(min(len(ev), 4 if n > 3 else len(ev))):
                 out.append([ev[(r + i * 3) % len(ev)] for i in range(n)])
-        return out[: max(budget, 8)]
+        out = out[: max(budget, 8)]
+        if isinstance(t, pydsdl.VariableLengthArrayType) and getattr(t, "string_like", False) and t.capacity >= 3:
+            # texts: valid UTF-8 that is NOT in a Unicode normal form (OHM SIGN, e + COMBINING ACUTE), a composed letter,
+            # printable ASCII, an invalid sequence - byte for byte what a text-aware conversion must hand back
+            for text in ([0xE2, 0x84, 0xA6], [0x65, 0xCC, 0x81], [0xC3, 0xA9, 0x41], [0x61, 0x62, 0x63], [0xFF, 0xC3, 0x28]):
+                out.append(text[: t.capacity])
+        return out
     if isinstance(t, pydsdl.DelimitedType):
         return values_of(t.inner_type, storage, budget)
     if isinstance(t, pydsdl.UnionType):
